@@ -113,7 +113,7 @@ def v3_events(chunks, more_fillers=None):
     for i, ch in enumerate(chunks):
         if i:
             out += TAG_MORE + (more_fillers[i - 1] if more_fillers else b'')
-        out += TAG_EVENTS + le(64 * len(ch), 8) + bytes(8) + b''.join(ch)
+        out += TAG_EVENTS + le(sum(len(r) for r in ch), 8) + bytes(8) + b''.join(ch)      # (a last element may be a partial record)
     return out
 
 
